@@ -90,7 +90,12 @@ func (r *Response) sendBackResponse(
 		http.Redirect(w, req, fmt.Sprintf("%s?%s", r.AcsUrl, BuildRedirectQuery(string(respData), r.RelayState, r.SigAlg, r.Signature)), http.StatusFound)
 		return
 	default:
-		//TODO: no binding
+		// no binding this IdP can use towards the consumer: fall back to the plain XML body
+		// instead of sending an empty reply
+		if err := xml.Write(w, respData); err != nil {
+			r.ErrorFunc(err)
+			return
+		}
 	}
 }
 
